@@ -2,10 +2,10 @@ SPECIFICATION GenSpec
 CONSTANTS
   Reqs = {"r1", "r2", "r3"}
   Bad = {"r3"}
-  Shapes = {{"parm", "body", "user", "hdr", "partmap", "partvar", "loc", "arr", "map", "rec", "fn"}}
+  Shapes = {{"parm", "body", "user", "hdr", "partmap", "partvar", "pkg", "loc", "arr", "map", "rec", "fn"}}
   MaxEvict = 1
-  Impl = "fixed"
-  Lock = "fixed"
+  Defects = {}
+  Lock = TRUE
   Depth = 20
 INVARIANTS Emit
 CHECK_DEADLOCK FALSE
